@@ -40,6 +40,7 @@
 (*              (response received, nothing stored yet) / prewait (decided *)
 (*              to go idle) / idle (in the select) / done / none           *)
 (*              late: more than ReplicaMaxLeaderTimeout since last contact *)
+(*   fm, we     response size limit in units, which records are wide (fixed per behaviour)           *)
 (*   flog[f], fhw[f]  follower log (values = leader offsets) and HW        *)
 (*   rp         reports made by the last step: set of [f, e]; rpts: ever   *)
 (***************************************************************************)
@@ -48,7 +49,8 @@ EXTENDS Integers, Sequences, FiniteSets
 CONSTANTS F,            \* followers
           MaxRec,       \* records the leader appends
           MaxEp,        \* leader epochs
-          FetchMax,     \* records per replication response
+          FetchMax,     \* size units per replication response (a plain record = 1 unit)
+          WideEvery,    \* > 0: every record whose number is a multiple of it is wide (2 units)
           SlowTimeouts, \* a request that was accepted may time out as well
           ZombieSteals  \* a stopped loop entering its select may take the notify token
 
@@ -69,7 +71,14 @@ Loop(s, f, w) == IF w = "cur" THEN s.lp[f] ELSE s.zl[f]
 SetLoop(s, f, w, l) == IF w = "cur" THEN [s EXCEPT !.lp[f] = l] ELSE [s EXCEPT !.zl[f] = l]
 Feo(s, f) == Len(s.flog[f]) - 1
 
-Init0 == [up |-> TRUE, mute |-> FALSE, ep |-> 1, leo |-> -1, lhw |-> -1,
+\* response packing (replicator.replicate): records are added while the batch stays within the byte limit
+Units(we, v) == IF we > 0 /\ v % we = 0 THEN 2 ELSE 1
+RECURSIVE PackTo(_, _, _, _, _)
+PackTo(we, from, newest, room, acc) ==      \* last offset of the batch starting at `from` (from - 1 = nothing fits)
+  IF from > newest \/ Units(we, from) > room THEN acc
+  ELSE PackTo(we, from + 1, newest, room - Units(we, from), from)
+
+Init0 == [fm |-> FetchMax, we |-> WideEvery, up |-> TRUE, mute |-> FALSE, ep |-> 1, leo |-> -1, lhw |-> -1,
           iso |-> [f \in F |-> -1], rep |-> [f \in F |-> NoRep], chq |-> [f \in F |-> <<>>],
           wtr |-> [f \in F |-> "none"], wleo |-> [f \in F |-> -1], zn |-> [f \in F |-> 0],
           tok |-> [f \in F |-> 0], fep |-> [f \in F |-> 1],
@@ -131,7 +140,7 @@ N_LResp(s, f) ==
   LET r == s.rep[f]
       caught == r.off >= r.lat
       resp == IF caught THEN [e |-> s.ep, hw |-> s.lhw, from |-> 0, to |-> -1]
-              ELSE [e |-> s.ep, hw |-> s.lhw, from |-> r.off + 1, to |-> Min2(s.leo, r.off + FetchMax)]
+              ELSE [e |-> s.ep, hw |-> s.lhw, from |-> r.off + 1, to |-> PackTo(s.we, r.off + 1, s.leo, s.fm, r.off)]
       s1 == IF caught /\ s.wtr[f] = "none"
             THEN [Clr(s) EXCEPT !.wtr[f] = IF r.lat = s.leo THEN "reg" ELSE "stale", !.wleo[f] = r.lat]
             ELSE Clr(s)
